@@ -359,3 +359,12 @@ Proof.
   destruct (fld_unfld c Hc H1) as (Ic & Fc).
   rewrite encode_eq by assumption. now rewrite Fa, Fb, Fc.
 Qed.
+
+Lemma blockindex_roundtrip_l p : pt_is32 p ->
+  in_blockindex_range (px p) -> in_blockindex_range (py p) -> in_blockindex_range (pz p) ->
+  decode_block_index (encode_block_index p) = p.
+Proof. intros H Hx Hy Hz. apply (proj2 (blockindex_roundtrip_iff p H)). auto. Qed.
+
+Lemma blockindex_to_izyx_l w :
+  block_index_to_izyx w = to_zyx (decode_block_index w) /\ block_index_to_izyx_via_ok = true.
+Proof. split; reflexivity. Qed.
